@@ -26,7 +26,7 @@ def run(rep):
         apalache.shape_lemmas(rep)
     fnd = Findings()
     res1, tab = dtlib.run_dt1(rep, rep.tier)
-    dtchecks.one_dim_replay(rep, fnd, tab, "C03", kinds=("colfilter", "coldfilt"))
+    dtchecks.one_dim_replay(rep, fnd, tab, "C03", kinds=("colfilter", "colfilter0", "coldfilt"))   # colfilter0 = mode 'zero': diagnostic only
     res2 = dtchecks.run_dt2(rep, rep.tier, ["BandWiringOK", "OrientOK", "FwdPyramidOK", "FwdAlignOK"], {"fwd"})
     dtchecks.forward_replay(rep, fnd, tab, res2.records, "C03")
     dtchecks.numeric_forward(rep, fnd, "C03", rep.tier)
